@@ -108,18 +108,19 @@ type callSite struct {
 }
 
 type LockFacts struct {
-	P        *Prog
-	CondLock map[string]string                   // cond field -> lock id
-	Before   map[ssa.Instruction]LockState       // local lock state before each instruction
-	ExitHeld map[*ssa.Function][]LockState       // local state at each return
-	MayHeld  map[*ssa.Function]LockState         // union of entry contexts
-	MustHeld map[*ssa.Function]LockState         // intersection of entry contexts
-	MayWhy   map[*ssa.Function]map[string]string // lock -> "caller @pos" explaining why it may be held
-	Sites    []callSite
-	External map[*ssa.Function]bool // may be entered from outside the module with no lock held
-	Issues   []LockIssue
-	Order    map[[2]string][]string // lock-order edges a->b with witnesses
-	LockOps  int
+	P         *Prog
+	CondLock  map[string]string                   // cond field -> lock id
+	Before    map[ssa.Instruction]LockState       // local lock state before each instruction (held on every way of arriving)
+	BeforeMay map[ssa.Instruction]LockState       // … held on some way of arriving
+	ExitHeld  map[*ssa.Function][]LockState       // local state at each return
+	MayHeld   map[*ssa.Function]LockState         // union of entry contexts
+	MustHeld  map[*ssa.Function]LockState         // intersection of entry contexts
+	MayWhy    map[*ssa.Function]map[string]string // lock -> "caller @pos" explaining why it may be held
+	Sites     []callSite
+	External  map[*ssa.Function]bool // may be entered from outside the module with no lock held
+	Issues    []LockIssue
+	Order     map[[2]string][]string // lock-order edges a->b with witnesses
+	LockOps   int
 }
 
 var lockFuncs = map[string]string{
@@ -191,7 +192,7 @@ func applyLockOp(st *flowState, op lockOp) (issue string) {
 }
 
 func buildLockFacts(p *Prog) *LockFacts {
-	lf := &LockFacts{P: p, CondLock: map[string]string{}, Before: map[ssa.Instruction]LockState{},
+	lf := &LockFacts{P: p, CondLock: map[string]string{}, Before: map[ssa.Instruction]LockState{}, BeforeMay: map[ssa.Instruction]LockState{},
 		ExitHeld: map[*ssa.Function][]LockState{}, MayHeld: map[*ssa.Function]LockState{}, MustHeld: map[*ssa.Function]LockState{},
 		MayWhy: map[*ssa.Function]map[string]string{}, External: map[*ssa.Function]bool{}, Order: map[[2]string][]string{}}
 	own := map[*ssa.Function]bool{}
@@ -383,15 +384,19 @@ func buildLockFacts(p *Prog) *LockFacts {
 	return lf
 }
 
-// flow runs the forward lock-state dataflow over one function.
+// flow runs the forward lock-state dataflow over one function. The state of a block is a small SET of flow states
+// (held locks + pending deferred lock operations), one per distinct way of arriving: paths that arrive with different
+// states — `if bad { err = … } else { mu.Lock(); defer mu.Unlock(); … }; return` — are followed separately, each having to be
+// balanced at the exits by itself. Before[ins] is what every arriving state holds, BeforeMay[ins] what some state holds.
 func (lf *LockFacts) flow(f *ssa.Function, own map[*ssa.Function]bool) {
 	if len(f.Blocks) == 0 {
 		return
 	}
-	in := map[*ssa.BasicBlock]flowState{}
-	in[f.Blocks[0]] = flowState{held: LockState{}}
+	const maxStates = 4
+	in := map[*ssa.BasicBlock][]flowState{}
+	in[f.Blocks[0]] = []flowState{{held: LockState{}}}
 	if f.Recover != nil {
-		in[f.Recover] = flowState{held: LockState{}}
+		in[f.Recover] = []flowState{{held: LockState{}}}
 	}
 	work := []*ssa.BasicBlock{f.Blocks[0]}
 	if f.Recover != nil {
@@ -399,6 +404,16 @@ func (lf *LockFacts) flow(f *ssa.Function, own map[*ssa.Function]bool) {
 	}
 	reported := map[string]bool{}
 	visits := map[*ssa.BasicBlock]int{}
+	sites := map[string]bool{}
+	addSite := func(cs callSite) {
+		k := fmt.Sprintf("%p|%p|%s|%v", cs.instr, cs.callee, cs.local, cs.isGo)
+		if !sites[k] {
+			sites[k] = true
+			lf.Sites = append(lf.Sites, cs)
+		}
+	}
+	exits := map[string]bool{}
+	opSeen := map[ssa.Instruction]bool{}
 	for len(work) > 0 {
 		b := work[0]
 		work = work[1:]
@@ -407,69 +422,102 @@ func (lf *LockFacts) flow(f *ssa.Function, own map[*ssa.Function]bool) {
 			lf.Issues = append(lf.Issues, LockIssue{Kind: "inconsistent", Fn: f, Instr: b.Instrs[0], Detail: "lock-state dataflow does not stabilise"})
 			return
 		}
-		st := in[b].clone()
+		var sts []flowState
+		for _, s0 := range in[b] {
+			sts = append(sts, s0.clone())
+		}
 		for _, ins := range b.Instrs {
-			lf.Before[ins] = st.held.clone()
-			switch x := ins.(type) {
-			case *ssa.Defer:
-				if op, ok := lf.lockOpOf(&x.Call); ok {
-					st.deferred = append(st.deferred, op)
-				} else {
-					for _, g := range lf.P.calleesOf(&x.Call) {
-						// a deferred module call runs at function exit; its lock context is the state at exit,
-						// approximated by the state at registration minus nothing (conservative: may-held).
-						lf.Sites = append(lf.Sites, callSite{caller: f, callee: g, instr: ins, local: st.held.clone()})
+			// what all / some arriving states hold
+			must, may := sts[0].held.clone(), sts[0].held.clone()
+			for _, st := range sts[1:] {
+				must, may = interLS(must, st.held), unionLS(may, st.held)
+			}
+			lf.Before[ins], lf.BeforeMay[ins] = must, may
+			for si := range sts {
+				st := &sts[si]
+				before := st.held.clone()
+				switch x := ins.(type) {
+				case *ssa.Defer:
+					if op, ok := lf.lockOpOf(&x.Call); ok {
+						st.deferred = append(st.deferred, op)
+					} else {
+						for _, g := range lf.P.calleesOf(&x.Call) {
+							// a deferred module call runs at function exit; its lock context is the state at exit,
+							// approximated by the state at registration minus nothing (conservative: may-held).
+							addSite(callSite{caller: f, callee: g, instr: ins, local: st.held.clone()})
+						}
 					}
-				}
-			case *ssa.RunDefers:
-				for i := len(st.deferred) - 1; i >= 0; i-- {
-					op := st.deferred[i]
-					if iss := applyLockOp(&st, op); iss != "" {
-						lf.report(reported, LockIssue{Kind: iss, Fn: f, Instr: ins, Lock: op.lock, Detail: fmt.Sprintf("deferred %s.%s() with state %s", op.lock, op.kind, lf.Before[ins])})
+				case *ssa.RunDefers:
+					for i := len(st.deferred) - 1; i >= 0; i-- {
+						op := st.deferred[i]
+						if iss := applyLockOp(st, op); iss != "" {
+							lf.report(reported, LockIssue{Kind: iss, Fn: f, Instr: ins, Lock: op.lock, Detail: fmt.Sprintf("deferred %s.%s() with state %s", op.lock, op.kind, before)})
+						}
 					}
-				}
-				st.deferred = nil
-			case *ssa.Return:
-				lf.ExitHeld[f] = append(lf.ExitHeld[f], st.held.clone())
-				if len(st.held) != 0 {
-					lf.report(reported, LockIssue{Kind: "unbalanced", Fn: f, Instr: ins, Detail: fmt.Sprintf("returns with %s still held", st.held)})
-				}
-			case *ssa.Panic:
-				// explicit panic: defers run; not an ordinary exit
-			case *ssa.Call, *ssa.Go:
-				cc := callCommon(ins)
-				_, isGo := ins.(*ssa.Go)
-				if op, ok := lf.lockOpOf(cc); ok && !isGo {
-					lf.LockOps++
-					if iss := applyLockOp(&st, op); iss != "" {
-						lf.report(reported, LockIssue{Kind: iss, Fn: f, Instr: ins, Lock: op.lock, Detail: fmt.Sprintf("%s.%s() with local state %s", op.lock, op.kind, lf.Before[ins])})
+					st.deferred = nil
+				case *ssa.Return:
+					if k := fmt.Sprintf("%p|%s", ins, st.held); !exits[k] {
+						exits[k] = true
+						lf.ExitHeld[f] = append(lf.ExitHeld[f], st.held.clone())
 					}
-					continue
-				}
-				c := calleeOf(cc)
-				for _, g := range lf.P.calleesOf(cc) {
-					lf.Sites = append(lf.Sites, callSite{caller: f, callee: g, instr: ins, local: st.held.clone(), isGo: isGo})
-				}
-				if c.Static != nil && funcFullName(c.Static) == "sync.(*Cond).Wait" && len(cc.Args) > 0 {
-					// Wait releases and re-acquires cond.L: net effect none, but it must be held
-					if fld, _, ok := loadedField(cc.Args[0]); ok {
-						if l := lf.CondLock[fld]; l != "" && st.held[l] != 2 {
-							lf.report(reported, LockIssue{Kind: "release-unheld", Fn: f, Instr: ins, Lock: l, Detail: "Cond.Wait without holding its lock " + l})
+					if len(st.held) != 0 {
+						lf.report(reported, LockIssue{Kind: "unbalanced", Fn: f, Instr: ins, Detail: fmt.Sprintf("returns with %s still held", st.held)})
+					}
+				case *ssa.Panic:
+					// explicit panic: defers run; not an ordinary exit
+				case *ssa.Call, *ssa.Go:
+					cc := callCommon(ins)
+					_, isGo := ins.(*ssa.Go)
+					if op, ok := lf.lockOpOf(cc); ok && !isGo {
+						if !opSeen[ins] {
+							opSeen[ins] = true
+							lf.LockOps++
+						}
+						if iss := applyLockOp(st, op); iss != "" {
+							lf.report(reported, LockIssue{Kind: iss, Fn: f, Instr: ins, Lock: op.lock, Detail: fmt.Sprintf("%s.%s() with local state %s", op.lock, op.kind, before)})
+						}
+						continue
+					}
+					c := calleeOf(cc)
+					for _, g := range lf.P.calleesOf(cc) {
+						addSite(callSite{caller: f, callee: g, instr: ins, local: st.held.clone(), isGo: isGo})
+					}
+					if c.Static != nil && funcFullName(c.Static) == "sync.(*Cond).Wait" && len(cc.Args) > 0 {
+						// Wait releases and re-acquires cond.L: net effect none, but it must be held
+						if fld, _, ok := loadedField(cc.Args[0]); ok {
+							if l := lf.CondLock[fld]; l != "" && st.held[l] != 2 {
+								lf.report(reported, LockIssue{Kind: "release-unheld", Fn: f, Instr: ins, Lock: l, Detail: "Cond.Wait without holding its lock " + l})
+							}
 						}
 					}
 				}
 			}
 		}
 		for _, s := range b.Succs {
-			if prev, ok := in[s]; ok {
-				if prev.key() != st.key() {
-					lf.report(reported, LockIssue{Kind: "inconsistent", Fn: f, Instr: s.Instrs[0],
-						Detail: fmt.Sprintf("paths join with different lock states %s vs %s", prev.key(), st.key())})
+			prev, seen := in[s]
+			grew := !seen
+			for _, st := range sts {
+				dup := false
+				for _, q := range prev {
+					if q.key() == st.key() {
+						dup = true
+					}
 				}
-				continue
+				if dup {
+					continue
+				}
+				if len(prev) >= maxStates {
+					lf.report(reported, LockIssue{Kind: "inconsistent", Fn: f, Instr: s.Instrs[0],
+						Detail: fmt.Sprintf("paths join with more than %d different lock states (%s vs %s)", maxStates, prev[0].key(), st.key())})
+					continue
+				}
+				prev = append(prev, st.clone())
+				grew = true
 			}
-			in[s] = st.clone()
-			work = append(work, s)
+			if grew {
+				in[s] = prev
+				work = append(work, s)
+			}
 		}
 	}
 }
@@ -490,7 +538,7 @@ func (lf *LockFacts) HeldAt(in ssa.Instruction) LockState {
 
 // MayHeldAt is the set of locks possibly held before an instruction.
 func (lf *LockFacts) MayHeldAt(in ssa.Instruction) LockState {
-	return unionLS(lf.MayHeld[in.Parent()], lf.Before[in])
+	return unionLS(lf.MayHeld[in.Parent()], lf.BeforeMay[in])
 }
 
 // orderCycle finds a cycle in the lock-order graph.
